@@ -1145,7 +1145,10 @@ func (vm *VirtualMachine) cloneCallAsync(
 		return nil, err
 	}
 	thread := object.NewThread(clone.initContext(ctx), fn, args)
+	tok := verifhook.Spawn("vm.reaper")
 	go func() {
+		verifhook.Start(tok)
+		defer verifhook.Exit(tok)
 		thread.Wait(context.Background())
 		clone.stop()
 	}()
